@@ -5,6 +5,7 @@ import (
 	"bytes"
 	"fmt"
 	"net"
+	"os"
 	"runtime"
 	"runtime/metrics"
 	"sort"
@@ -29,7 +30,12 @@ import (
 	"verif/rfl"
 )
 
-func TestMain(m *testing.M)   { pbt.Main(m, "C04") }
+func TestMain(m *testing.M) {
+	if os.Getenv(unknownHelperEnv) != "" {
+		unknownHelperMain() // re-executed by unknown-type-codes-concurrent: never returns
+	}
+	pbt.Main(m, "C04")
+}
 func TestReplay(t *testing.T) { pbt.Replay(t) }
 
 // Target is one decoder with a generator of valid encodings for it.
@@ -1005,17 +1011,21 @@ type NetCase struct {
 	Cut    int    `json:"cut"`    // the peer sends Stream[:Cut] and closes
 	Chunks []int  `json:"chunks"` // sizes of the peer's writes (cycled)
 	Reads  []int  `json:"reads"`  // field widths read in order: 1,2,3,4,5,8 = fixed-width integers; >= 100: ReadBytes(n-100)
+	// Stall: the peer does not close after Stream[:Cut], it just sends nothing more; the reader's connection carries a
+	// read deadline of 80 ms (as the agents set one): the cut read must report failure, in bounded time
+	Stall bool `json:"stall,omitempty"`
 }
 
 var specNet = pbt.Register(pbt.Spec[NetCase]{
 	Prop: "C04", Name: "connection-short-reads",
-	Rule:  "a DataInputX reading from a connection (net.Pipe) whose peer writes a prefix of the stream in generated chunk sizes and then closes; a sequence of fixed-width and ReadBytes(n) reads: a read whose field lies completely inside what was sent must return exactly those bytes, a read whose field is cut by the close must report failure (panic) and never return zero-filled or partial data; non-trivial = the close falls strictly inside a multi-byte field; distinct by case",
+	Rule:  "a DataInputX reading from a connection (net.Pipe) whose peer writes a prefix of the stream in generated chunk sizes and then closes (one case in sixteen: sends nothing more without closing, the reader's connection has an 80 ms read deadline); a sequence of fixed-width and ReadBytes(n) reads: a read whose field lies completely inside what was sent must return exactly those bytes, a read whose field is cut by the close must report failure (panic) and never return zero-filled or partial data; non-trivial = the close falls strictly inside a multi-byte field; distinct by case",
 	Quick: 1500, Thorough: 60000,
 	Draw: func(t *rapid.T) NetCase {
 		b := rapid.SliceOfN(rapid.Byte(), 1, 64).Draw(t, "stream")
 		c := NetCase{Stream: gen.Hex(b), Cut: rapid.IntRange(0, len(b)).Draw(t, "cut")}
 		c.Chunks = rapid.SliceOfN(rapid.IntRange(1, 9), 1, 4).Draw(t, "chunks")
 		c.Reads = rapid.SliceOfN(rapid.SampledFrom([]int{1, 2, 3, 4, 5, 8, 100, 101, 103, 107, 116}), 1, 12).Draw(t, "reads")
+		c.Stall = rapid.IntRange(0, 15).Draw(t, "stall") == 0
 		return c
 	},
 	Run: func(c NetCase) *pbt.Result {
@@ -1025,6 +1035,8 @@ var specNet = pbt.Register(pbt.Spec[NetCase]{
 			cut = len(s)
 		}
 		server, client := net.Pipe()
+		over := make(chan struct{})
+		defer close(over)
 		go func() {
 			defer server.Close()
 			off := 0
@@ -1038,11 +1050,15 @@ var specNet = pbt.Register(pbt.Spec[NetCase]{
 				}
 				off += n
 			}
+			if c.Stall {
+				<-over // neither data nor close until the case is over
+			}
 		}()
 		defer client.Close()
 		in := wio.NewDataInputNet(client)
 		off := 0
 		inside := false
+		stuck := false
 		for ri, w := range c.Reads {
 			width := w
 			if w >= 100 {
@@ -1052,6 +1068,20 @@ var specNet = pbt.Register(pbt.Spec[NetCase]{
 				break
 			}
 			var got []byte
+			panics := panics
+			if c.Stall && off+width > cut {
+				// the read that waits for bytes that never come: it has to end, with a failure (the deadline is set now, so
+				// that the reads before it are not affected by a slow machine)
+				client.SetReadDeadline(time.Now().Add(80 * time.Millisecond))
+				panics = func(f func()) bool {
+					returned, pv := pbt.WithTimeout(15*time.Second, f)
+					if !returned {
+						stuck = true
+						return true
+					}
+					return pv != nil
+				}
+			}
 			p := panics(func() {
 				switch w {
 				case 1:
@@ -1084,12 +1114,15 @@ var specNet = pbt.Register(pbt.Spec[NetCase]{
 			if off < cut && width > 1 {
 				inside = true
 			}
+			if stuck {
+				return pbt.Fail("read %d of %d bytes at offset %d: the peer sent %d bytes and then nothing (no close); the connection's read deadline passed 15 s ago and the read has neither returned nor reported failure", ri, width, off, cut)
+			}
 			if !p {
 				return pbt.Fail("read %d of %d bytes at offset %d returned %x although the peer closed after %d bytes: data that was never received", ri, width, off, got, cut)
 			}
 			break
 		}
-		return &pbt.Result{NT: inside, Classes: []string{fmt.Sprintf("cut-inside-field=%v", inside)}}
+		return &pbt.Result{NT: inside, Classes: []string{fmt.Sprintf("cut-inside-field=%v", inside), fmt.Sprintf("peer-stalls-instead-of-closing=%v", c.Stall)}}
 	},
 })
 
